@@ -167,6 +167,14 @@ func corpus() []caseInput {
 		gVsys{Rules: []gRule{ru("r0", l("a_m"), l("any"), l("any")), ru("r1", l("a_m", "IP_10.1.1.5", "p"), l("any"), l("any"))},
 			Groups: []gGrp{{"a_m", l("IP_10.1.1.1", "IP_10.1.1.2")}, {"p", l("Z_10.3.0.1")}},
 			Addrs: append(append([]gAddr{}, A...), Z[:1]...)}))
+	// address and address-group share a name space on the device: the target's g0 has another content,
+	// so it is transferred under a generated name, g0-1 — which is the name of an address
+	clash := gAddr{Name: "g0-1", IP: "10.9.9.9/32"}
+	cs = append(cs, pair("corpus:generated-group-name-is-an-address-name",
+		gVsys{Rules: []gRule{ru("r1", l("g0"), l("any"), l("tcp 80")), ru("r2", l("any"), l("g0-1"), l("tcp 80"))},
+			Groups: []gGrp{{"g0", l("IP_10.1.1.1", "IP_10.1.1.2", "IP_10.1.1.3", "IP_10.1.1.4")}}, Addrs: append(append([]gAddr{}, A...), clash), Svcs: S[:1]},
+		gVsys{Rules: []gRule{ru("r1", l("g0"), l("any"), l("tcp 80")), ru("r2", l("any"), l("g0-1"), l("tcp 80"))},
+			Groups: []gGrp{{"g0", l("IP_10.1.1.5")}}, Addrs: append(append([]gAddr{}, A...), clash), Svcs: S[:1]}))
 	// attributes besides the lists, different on exactly one side, incl. absent against a value
 	attr := func(mode string, f func(d, t *gRule)) {
 		d := ru("r1", l("any"), l("IP_10.1.1.1"), l("any"))
